@@ -743,6 +743,7 @@ pub fn run(ctx: &mut Ctx) {
                 let want = case.join(" ");
                 ctx.failures.retain(|f| f.2 == want);
             }
+            Some(w) if super::c16_fmtmodel::replay(ctx, &case) => { let _ = w; }
             Some(other) => formats::replay(ctx, other, sub),
             None => {}
         }
@@ -800,5 +801,6 @@ pub fn run(ctx: &mut Ctx) {
         damaged_case(ctx, ctx.seed.wrapping_mul(16_000_211).wrapping_add(it));
     }
     formats::run(ctx);
+    super::c16_fmtmodel::run(ctx);
     ctx.sample(|| "c16 rd 2 35:6e6f6f646c6573,28:-,31:62677a66,28:- r3,t,s35/0,t,x4,f2,t,s94/0,t,r5 p,3,p,40,p,p,1 0010".into());
 }
